@@ -4,7 +4,7 @@ import random
 import fol
 import streams
 from checks._folcommon import tabs_of
-from common import parse_q, sub_seed
+from common import parse_q, sub_seed, size
 
 THEOREMS = ["LNN.C12_sound_forall", "LNN.C12_sound_exists", "LNN.C12_lower_passes", "LNN.C12_axiom_instances_true",
             "LNN.C12_upper_passes", "LNN.C12_only_when_forced", "LNN.C12_only_when_forced_exists",
@@ -34,7 +34,7 @@ def oracle(rec):
 
 
 def run(rep, tier, seed):
-    n = 150 if tier == "quick" else 3000
+    n = size(tier, 150, 3000)
     cases = [fol.gen_c12_case(random.Random(sub_seed(seed, "c12", k))) for k in range(n)]
     recs, first_dis = streams.run_fol_stream(rep, "quant-interp", cases, {"tables", "reported", "contra"}, fn="run_c12")
     tightened = 0
